@@ -211,6 +211,17 @@ func ruleCMP2(c *Ctx) []Ob {
 	for f := range fset {
 		fns = append(fns, f)
 	}
+	// the functions that make the index keys compare numbers too (by the bytes they produce): a sign
+	// conversion on the way into a key wraps the same values
+	keyFns := map[*ssa.Function]bool{}
+	if oc := c.lookupFunc("internal", "OrderedCode"); oc != nil {
+		for f := range c.staticReach(oc) {
+			if c.IsLib(f) && !fset[f] {
+				keyFns[f] = true
+				fns = append(fns, f)
+			}
+		}
+	}
 	sort.Slice(fns, func(i, j int) bool { return c.fname(fns[i]) < c.fname(fns[j]) })
 	for _, fn := range fns {
 		n := 0
@@ -218,12 +229,15 @@ func ruleCMP2(c *Ctx) []Ob {
 			for _, in := range b.Instrs {
 				switch x := in.(type) {
 				case *ssa.Call:
+					if keyFns[fn] {
+						continue // K1: time keys are UnixNano (KEY11's matter)
+					}
 					if full := calleeFullName(x); full == "(time.Time).UnixNano" {
 						n++
 						o.add(VIOLATED, c.fname(fn)+"/time compared through UnixNano", relPath(c, x.Pos()), "times are ordered through UnixNano(), which is only defined for instants between 1678 and 2262 and wraps silently outside: year 2300 compares before 2020; compare instants with Before/After/Equal")
 					}
 				case *ssa.BinOp:
-					if x.Op != token.SUB || !isIntType(x.Type()) {
+					if x.Op != token.SUB || !isIntType(x.Type()) || keyFns[fn] {
 						continue
 					}
 					n++
@@ -240,7 +254,7 @@ func ruleCMP2(c *Ctx) []Ob {
 						n++
 						key := c.fname(fn) + "/conversion uint64->int64"
 						o.add(VIOLATED, key, relPath(c, x.Pos()), "an unsigned 64-bit value is reinterpreted as signed before being compared: values above MaxInt64 become negative (MaxUint64 > 1 is false)")
-					case is64(from, false) && is64(to, true):
+					case is64(from, false) && is64(to, true) && !keyFns[fn]:
 						n++
 						key := c.fname(fn) + "/conversion int64->uint64"
 						src := x.X
@@ -468,6 +482,30 @@ func (c *Ctx) normalisedValue(v ssa.Value, depth int) (bool, string) {
 			return false, "the raw parameter " + x.Name()
 		case *ssa.Const:
 			continue
+		case *ssa.Slice:
+			// a slice literal: every element stored into its backing array
+			if al, ok := x.X.(*ssa.Alloc); ok && al.Referrers() != nil {
+				allOK, why, cnt := true, "", 0
+				for _, r := range *al.Referrers() {
+					ia, ok := r.(*ssa.IndexAddr)
+					if !ok || ia.Referrers() == nil {
+						continue
+					}
+					for _, rr := range *ia.Referrers() {
+						if st, ok := rr.(*ssa.Store); ok && st.Addr == ssa.Value(ia) {
+							cnt++
+							if ok, w := c.normalisedValue(st.Val, depth+1); !ok {
+								allOK, why = false, w
+							}
+						}
+					}
+				}
+				if allOK && cnt > 0 {
+					continue
+				}
+				return false, "a slice literal holding " + why
+			}
+			return false, "a re-slice of unknown provenance"
 		default:
 			return false, fmt.Sprintf("a %T", og)
 		}
@@ -1371,6 +1409,15 @@ func ruleCOD1(c *Ctx) []Ob {
 					if staticCallee(call) == f && guardedBy(f, call.Block(), okEdges) {
 						rec = true
 					}
+					// or through a helper for this kind of container, which goes through the elements and
+					// hands each one back to f
+					if h := staticCallee(call); h != nil && h != f && c.IsLib(c.declared(h)) && guardedBy(f, call.Block(), okEdges) {
+						allCalls(c.declared(h), func(hc ssa.CallInstruction) {
+							if staticCallee(hc) == f && c.inLoop(hc.Block()) {
+								rec = true
+							}
+						})
+					}
 				})
 				// ... and on every path: no return under the ok edge that is taken before the loop over
 				// the elements (a fast path deciding from a look at the elements that nothing has to be
@@ -1948,6 +1995,26 @@ func ruleCMP6(c *Ctx) []Ob {
 							case *ssa.Lookup:
 								if x.X != mu.Map && (x.Index == mu.Key || sameOrigin(x.Index, mu.Key)) {
 									found = true
+								}
+							case *ssa.Call:
+								// a helper given the name, which looks it up in a record of its own (walk.take(name, depth))
+								if h := staticCallee(x); h != nil && c.IsLib(c.declared(h)) {
+									h = c.declared(h)
+									for ai, a := range x.Call.Args {
+										if !(a == mu.Key || sameOrigin(a, mu.Key)) || ai >= len(h.Params) {
+											continue
+										}
+										hp := h.Params[ai]
+										for _, hb := range h.Blocks {
+											for _, hi := range hb.Instrs {
+												if lk, ok := hi.(*ssa.Lookup); ok && (lk.Index == ssa.Value(hp) || sameOrigin(lk.Index, hp)) {
+													if mt, ok := lk.X.Type().Underlying().(*types.Map); ok && isIntType(mt.Elem()) {
+														found = true
+													}
+												}
+											}
+										}
+									}
 								}
 							case *ssa.BinOp:
 								walk(x.X, d+1)
